@@ -32,6 +32,13 @@ def build_loc_forest(version):
         d = Die("DW_TAG_variable", [Attr("DW_AT_name", "DW_FORM_string", b"v%d" % i), Attr(at, form, grp)])
         kids.append(d)
         tests.append((d, at, [(0, (1 << 64) - 1, grp)]))
+    # values given in place: blocks whose length needs one and two LEB128 bytes
+    for n in ((1, 4, 127) if version < 4 else (1, 4, 127, 128, 130, 300, 16384)):
+        blk = bytes((7 * k + n) & 0xff for k in range(n))
+        grp = [("DW_OP_implicit_value", blk), ("DW_OP_piece", n)] if n != 4 else [("DW_OP_lit1",), ("DW_OP_implicit_value", blk), ("DW_OP_stack_value",)]
+        d = Die("DW_TAG_variable", [Attr("DW_AT_name", "DW_FORM_string", b"iv%d" % n), Attr("DW_AT_location", form if n < 200 or version >= 4 else "DW_FORM_block", grp)])
+        kids.append(d)
+        tests.append((d, "DW_AT_location", [(0, (1 << 64) - 1, grp)]))
     # an expression without any operation (a variable optimised away): one element of length 0
     d = Die("DW_TAG_variable", [Attr("DW_AT_name", "DW_FORM_string", b"gone"), Attr("DW_AT_location", form, [])])
     kids.append(d)
@@ -59,6 +66,50 @@ def build_loc_forest(version):
                 off += 8 + 8 + 2 + len(dwloc.expr_layout(o)[1])
             off += 16
     return f, tests
+
+
+def build_loclists_forest():
+    """DWARF 5: location lists in .debug_loclists, every kind of entry, the default location first / in the middle /
+    last.  Returns (forest, [(die, attribute name, [(low, high, ops)])])"""
+    from vlib.dwgen import le, uleb
+    low_pc = 0x1000
+    e1, e2, e3, e4 = [("DW_OP_reg5",)], [("DW_OP_fbreg", -24), ("DW_OP_deref",)], [("DW_OP_lit1",), ("DW_OP_stack_value",)], [("DW_OP_breg7", 8)]
+    ALL = (0, (1 << 64) - 1)
+    lists = [[("pair", 0x10, 0x20, e1), ("default", e2), ("startlen", 0x1040, 0x10, e3)],
+             [("default", e1), ("pair", 0x10, 0x20, e2)],
+             [("pair", 0x10, 0x20, e1), ("startend", 0x2000, 0x2010, e4), ("default", e3)],
+             [("base", 0x8000), ("pair", 0x4, 0x8, e2), ("default", []), ("pair", 0x8, 0x18, e1), ("startlen", 0x9000, 0x1, e3)],
+             [("default", e4)], [("pair", 0x0, 0x4, e1)]]
+    sect = [0, 0, 0, 0] + le(5, 2) + [8, 0] + le(0, 4)
+    offs, expect = [], []
+    for l in lists:
+        offs.append(len(sect))
+        base, exp = low_pc, []
+        for it in l:
+            ex = dwloc.expr_layout(it[-1])[1] if it[0] != "base" else None
+            if it[0] == "pair":
+                sect += [4] + uleb(it[1]) + uleb(it[2]) + uleb(len(ex)) + ex
+                exp.append((base + it[1], base + it[2], it[3]))
+            elif it[0] == "default":
+                sect += [5] + uleb(len(ex)) + ex
+                exp.append((ALL[0], ALL[1], it[1]))
+            elif it[0] == "startend":
+                sect += [7] + le(it[1], 8) + le(it[2], 8) + uleb(len(ex)) + ex
+                exp.append((it[1], it[2], it[3]))
+            elif it[0] == "startlen":
+                sect += [8] + le(it[1], 8) + uleb(it[2]) + uleb(len(ex)) + ex
+                exp.append((it[1], it[1] + it[2], it[3]))
+            elif it[0] == "base":
+                sect += [6] + le(it[1], 8)
+                base = it[1]
+        sect += [0]
+        expect.append(exp)
+    sect[0:4] = le(len(sect) - 4, 4)
+    dies = [Die("DW_TAG_formal_parameter", [Attr("DW_AT_name", "DW_FORM_string", b"q%d" % k), Attr("DW_AT_location", "DW_FORM_sec_offset", o)]) for k, o in enumerate(offs)]
+    root = Die("DW_TAG_compile_unit", [Attr("DW_AT_name", "DW_FORM_string", b"loclists"), Attr("DW_AT_low_pc", "DW_FORM_addr", low_pc)], dies, flag=True)
+    f = Forest([Unit(root, 5)])
+    f.extra_sections = {".debug_loclists": sect}
+    return f, [(d, "DW_AT_location", exp) for d, exp in zip(dies, expect)]
 
 
 def build_abbrev_forest(rng):
@@ -105,9 +156,14 @@ def run(ctx):
             ctx.violation(what, case)
 
     nops = 0
-    for version in (2, 3, 4, 5):
-        f, tests = build_loc_forest(version)
-        path = os.path.join(d, "loc-v%d.o" % version)
+    for version in (2, 3, 4, 5, "5-loclists"):
+        if version == "5-loclists":
+            f, tests = build_loclists_forest()
+            version = 5
+            path = os.path.join(d, "loc-v5-loclists.o")
+        else:
+            f, tests = build_loc_forest(version)
+            path = os.path.join(d, "loc-v%d.o" % version)
         write_object(f, path)
         for die, name, elements in tests:
             evaluations += 1
@@ -204,7 +260,7 @@ def run(ctx):
     common.report_broken_obligations(ctx, oblig, bool(ctx.violations))
     ctx.cov.update({
         "evaluations": evaluations, "distinct_nontrivial": nops + nabb,
-        "rule": "4 generated units (DWARF 2-5) with %d stored operations: every operand class (none, addr, 1/2/4/8-byte unsigned and signed, ULEB, SLEB, register+offset, bregx, bit_piece) at boundary operands, as exprloc / block1 and as .debug_loc lists with 1-3 ranges, expressions without any operation (alone, in the middle and at the end of a list): range, length, offset, opcode, operands (vs the model's decoding), elem/relem numbering, ?OP_x per opcode; abbreviations of every DIE and the table list on %d generated inputs with tables shared A,B,A,-,A,B, placed in .debug_abbrev in any order, and DW_FORM_indirect; %d law evaluations on the sample binaries" % (nops, 3 if quick else 25, nlaw),
+        "rule": "4 generated units (DWARF 2-5) with %d stored operations: every operand class (none, addr, 1/2/4/8-byte unsigned and signed, ULEB, SLEB, register+offset, bregx, bit_piece) at boundary operands, as exprloc / block1, as .debug_loc lists with 1-3 ranges and as DWARF 5 .debug_loclists (offset pairs, start/end, start/length, base selection, the default location first / in the middle / last), values given in place with blocks of 1 to 16384 bytes, expressions without any operation (alone, in the middle and at the end of a list): range, length, offset, opcode, operands (vs the model's decoding), elem/relem numbering, ?OP_x per opcode; abbreviations of every DIE and the table list on %d generated inputs with tables shared A,B,A,-,A,B, placed in .debug_abbrev in any order, and DW_FORM_indirect; %d law evaluations on the sample binaries" % (nops, 3 if quick else 25, nlaw),
         "samples": [], "traces_validated_against_impl": nops + nabb + nlaw, "violations_found": nviol[0],
     })
     return ctx.finish(oblig)
